@@ -623,7 +623,7 @@ func c18SocksEnumerate(sh *evidence.Shard) {
 		})
 	}
 	if th {
-		p2.Bounds = map[string]any{"streams": "full grammar product with port 80 (auth configured): <=2 cuts at every offset, zero-length reads for <=1 cut; star streams (AuthFunc configured and nil): <=2 cuts with and without zero-length reads", "cuts": "<=2, every offset"}
+		p2.Bounds = map[string]any{"streams": "full grammar product with port 80 (auth configured): <=2 cuts at every offset, with and without zero-length reads; star streams (AuthFunc configured and nil): <=2 cuts with and without zero-length reads", "cuts": "<=2, every offset"}
 		for _, n := range negs {
 			for _, u := range ups {
 				for _, r := range reqs {
@@ -633,7 +633,7 @@ func c18SocksEnumerate(sh *evidence.Shard) {
 					if r.port != 80 {
 						continue
 					}
-					chunk(c18Stream(n, u, r), true, 1)
+					chunk(c18Stream(n, u, r), true, 2)
 				}
 			}
 		}
